@@ -25,4 +25,5 @@ def run(prog, rep, tier):
     apply(rep, "Z3", "hex fields are zero filled", r_tables.z3(prog), 2)
     apply(rep, "Z4", "integers render in their domain's radix and read back as the same value of the same domain (renderers interpreted on every bit length)", r_tables.z4(prog, tier), 4)
     apply(rep, "Z5", "`value` / `%d` give the same number in the decimal domain for constants of every kind of domain (op_value_cst::operate interpreted)", r_tables.z5(prog), 1)
+    apply(rep, "Z6", "the alias predicates on constants (`C ?TAG_x`, `?AT_x`, `?FORM_x`, `?OP_x`) hold exactly when `C == DW_..x` holds: same family and number; never for an equal number of another family (each pred_*_cst built by its constructor, result() and constant::operator== interpreted)", r_tables.z6(prog), 4)
     maybe_mutants("C20", rep, tier)
